@@ -139,6 +139,15 @@ def impl_init():
                 del ip.len, ip.chksum
                 if bytes(fr.getlayer("IP")) == bytes(pkt):          # (only when Scapy re-serialises the option list byte for byte)
                     pkt = fr
+        if (c["ts"] + c["ms"] + c["flags"]) % 5 == 3 and getattr(pkt, "version", None) == 4 and pkt.name == "IP":
+            # an ICMP error message QUOTING this very datagram (Scapy dissects the quote as IPerror / TCPerror layers): that is no TCP packet of anybody
+            from scapy.layers.inet import ICMP as _ICMP, IP as _IP
+            quoted = _IP(bytes(_IP(src="192.0.2.9", dst=pkt.src, ttl=60) / _ICMP(type=3, code=1) / bytes(pkt)))
+            try:
+                fingerprint_uptime(quoted, last)
+                return {"exc": "an ICMP error message quoting a TCP header was accepted as a TCP packet"}
+            except PacketError:
+                pass
         try:
             with U.options_as(c["ts"] + c["ms"], **vals) as kw:
                 r = fingerprint_uptime(pkt, last, **kw)
